@@ -170,6 +170,8 @@ def _find_terminal_instruction(snapshot, ctls, start, end, rst_handler, ctl=None
     address = start
     while address < end:
         i_addr, size, max_count, op_id = next(decode(snapshot, address, address + 1, rst_handler))[:4]
+        if address + size > end:
+            return end
         address += size
         if ctl is None:
             for a in range(i_addr, address):
@@ -247,7 +249,7 @@ def _generate_ctls_with_code_map(snapshot, start, end, config, rst_handler, code
                             if entry.next:
                                 e_end = entry.next.address
                             else:
-                                e_end = 65536
+                                e_end = end
                             _find_terminal_instruction(snapshot, ctls, instruction.address, e_end, rst_handler, entry.ctl)
                             disassembly.remove_entry(entry.address)
                             done = False
